@@ -559,7 +559,15 @@ func (q *workQueue) get() (job, bool) {
 	defer q.mu.Unlock()
 	for {
 		if len(q.jobs) > 0 {
-			j := q.jobs[len(q.jobs)-1]
+			// shortest prefix first: whole harnesses before donated subtrees (fairness between harnesses)
+			best := 0
+			for k := range q.jobs {
+				if len(q.jobs[k].prefix) < len(q.jobs[best].prefix) {
+					best = k
+				}
+			}
+			j := q.jobs[best]
+			q.jobs[best] = q.jobs[len(q.jobs)-1]
 			q.jobs = q.jobs[:len(q.jobs)-1]
 			q.active++
 			return j, true
